@@ -21,6 +21,7 @@ import (
 	"math/rand"
 	"os"
 	"path/filepath"
+	"runtime"
 	"sort"
 	"sync"
 	"sync/atomic"
@@ -44,7 +45,53 @@ type act struct {
 	C    int      `json:"c"`
 	P    int      `json:"p"`
 	K    int      `json:"k"`    // pushn / popn: calls in the burst
-	Acts []qa.Act `json:"acts"` // burst: calls issued back to back by one goroutine
+	Acts []qa.Act `json:"acts"` // burst: calls issued back to back by one goroutine; race: calls
+	// issued by different goroutines released together
+	RC    []int // race: the consumer (list queues; 0 = not a Pop) / proc (priq) of each call
+	Delay []int // race: spin iterations of each goroutine after the barrier (seeded skew)
+}
+
+const nCall = 3 // goroutines for the non-blocking calls of a step (a race may need several)
+
+// executors are reused from trace to trace as long as every worker came back
+var xpool = map[int][]*qx.Exec{}
+
+func getExec(n int) *qx.Exec {
+	if l := xpool[n]; len(l) > 0 {
+		xpool[n] = l[:len(l)-1]
+		return l[len(l)-1]
+	}
+	return qx.New(n)
+}
+
+func putExec(n int, x *qx.Exec) {
+	for p := 1; p <= n; p++ {
+		if x.Busy(p) {
+			x.Stop() // somebody is still inside a call (that is the finding): leave it behind
+			return
+		}
+	}
+	xpool[n] = append(xpool[n], x)
+}
+
+// barrier: every goroutine of a race announces itself, spins until the driver lets all go at once,
+// then burns its seeded skew.
+type barrier struct{ arrived, goFlag int32 }
+
+func (b *barrier) wait(delay int) {
+	atomic.AddInt32(&b.arrived, 1)
+	for atomic.LoadInt32(&b.goFlag) == 0 {
+	}
+	for d := 0; d < delay; d++ {
+		_ = atomic.LoadInt32(&b.goFlag) // a few ns each, no shared writes
+	}
+}
+
+func (b *barrier) release(n int) {
+	for atomic.LoadInt32(&b.arrived) < int32(n) {
+		runtime.Gosched()
+	}
+	atomic.StoreInt32(&b.goFlag, 1)
 }
 
 type planLine struct {
@@ -72,8 +119,17 @@ func readPlan(path string) []act {
 func none() tr.E { return qa.Rp("none", 0) }
 
 // ================================================================ list queues, step by step
+// A step has two phases: issue (hand the call(s) to goroutines) and, after global quiescence,
+// collect (who returned with what, who is still inside Pop).  runList does them one world at a
+// time; runBatch issues the next step of many independent worlds (each its own queue and
+// goroutines), waits for quiescence ONCE and collects them all - thousands of race rounds are cheap.
+type pending struct {
+	a      act
+	worker []int // race: the goroutine of each call
+}
+
 type lworld struct {
-	w    *tr.W
+	emit func(tr.E)
 	q    qa.Queue
 	kind string
 	x    *qx.Exec
@@ -81,6 +137,12 @@ type lworld struct {
 	m    qa.Model        // the harness's own count model of the property (drain length only)
 	mp   int             // consumers parked according to that model
 	dead bool
+	pend *pending
+	// the steps still to come: the plan, then the drain
+	plan   []act
+	dstate int
+	dleft  int
+	dfree  int
 }
 
 func (a act) rec() tr.E {
@@ -88,22 +150,31 @@ func (a act) rec() tr.E {
 	if a.Op == "pop" {
 		e["c"] = a.C
 	}
-	if a.Op == "burst" {
+	if a.Op == "burst" || a.Op == "race" {
 		recs := make([]tr.E, len(a.Acts))
 		for i, x := range a.Acts {
 			recs[i] = x.Rec()
+			if a.Op == "race" && x.Op == "pop" {
+				recs[i]["c"] = a.RC[i]
+			}
 		}
 		e["acts"] = recs
 	}
 	return e
 }
 
-// step issues one call, waits for quiescence, logs the stable picture.
-func (wd *lworld) step(a act) {
+// issue hands the call(s) of step a to goroutines; false: the step does not apply here.
+func (wd *lworld) issue(a act) bool {
 	if wd.dead {
-		return
+		return false
 	}
-	if a.Op == "burst" {
+	q := wd.q
+	switch a.Op {
+	case "race":
+		return wd.issueRace(a)
+	case "burst":
+		// one goroutine, the calls back to back, no quiescence in between: woken consumers race
+		// with the rest of the burst
 		var keep []qa.Act
 		for _, x := range a.Acts {
 			if x.Op != "pop" && qa.Supports(wd.kind, x) {
@@ -111,44 +182,113 @@ func (wd *lworld) step(a act) {
 			}
 		}
 		if len(keep) == 0 {
-			return
+			return false
 		}
 		a.Acts = keep
-	} else if !qa.Supports(wd.kind, a.Act) {
-		return
-	}
-	q := wd.q
-	inner := a.Act
-	if a.Op == "burst" {
-		// one goroutine, the calls back to back, no quiescence in between: woken consumers race
-		// with the rest of the burst
-		acts := a.Acts
 		wd.x.Issue(nCons+1, func() interface{} {
-			rs := make([]tr.E, len(acts))
-			for i, x := range acts {
+			rs := make([]tr.E, len(keep))
+			for i, x := range keep {
 				rs[i] = qa.Safe(q, x)
 			}
 			return rs
 		})
-	} else if a.Op == "pop" {
-		if a.C < 1 || a.C > nCons || wd.busy[a.C] {
-			return
+	case "pop":
+		if !qa.Supports(wd.kind, a.Act) || a.C < 1 || a.C > nCons || wd.busy[a.C] {
+			return false
 		}
 		wd.busy[a.C] = true
+		inner := a.Act
 		wd.x.Issue(a.C, func() interface{} { return qa.Safe(q, inner) })
-	} else {
+	default:
+		if !qa.Supports(wd.kind, a.Act) {
+			return false
+		}
+		inner := a.Act
 		wd.x.Issue(nCons+1, func() interface{} { return qa.Safe(q, inner) })
 	}
-	if err := wd.x.Settle(); err != nil {
-		tr.Fatal("%v", err)
+	wd.pend = &pending{a: a}
+	return true
+}
+
+// issueRace: the calls of the step go to different goroutines (Pops to their consumers, the others
+// to the caller goroutines) and are released together by a spin barrier.
+func (wd *lworld) issueRace(a act) bool {
+	var acts []qa.Act
+	var rc, delay, worker []int
+	used := map[int]bool{}
+	ncall := 0
+	for i, x := range a.Acts {
+		if !qa.Supports(wd.kind, x) {
+			continue
+		}
+		w := 0
+		if x.Op == "pop" {
+			c := a.RC[i]
+			if c < 1 || c > nCons || wd.busy[c] || used[c] {
+				continue
+			}
+			used[c], w = true, c
+		} else {
+			if ncall == nCall {
+				continue
+			}
+			ncall++
+			w = nCons + ncall
+		}
+		d := 0
+		if i < len(a.Delay) {
+			d = a.Delay[i]
+		}
+		acts, rc, worker, delay = append(acts, x), append(rc, a.RC[i]), append(worker, w), append(delay, d)
 	}
+	if len(acts) < 2 {
+		return false
+	}
+	a.Acts, a.RC = acts, rc
+	q := wd.q
+	b := &barrier{}
+	for i, x := range acts {
+		x, d := x, delay[i]
+		if x.Op == "pop" {
+			wd.busy[worker[i]] = true
+		}
+		wd.x.Issue(worker[i], func() interface{} {
+			b.wait(d)
+			return qa.Safe(q, x)
+		})
+	}
+	b.release(len(acts))
+	wd.pend = &pending{a: a, worker: worker}
+	return true
+}
+
+// collect logs the stable picture of the step issued last (call after global quiescence).
+func (wd *lworld) collect() {
+	p := wd.pend
+	wd.pend = nil
+	a := p.a
 	rep := qa.Rp("parked", 0)
 	rs := make([]tr.E, 0)
-	if a.Op != "pop" {
+	switch a.Op {
+	case "pop":
+	case "race":
+		rep = qa.Rp("race", 0)
+		for i, x := range a.Acts {
+			r := qa.Rp("parked", 0) // a Pop: what it returned (if it did) is in st
+			if x.Op != "pop" {
+				if v, ok := wd.x.Take(p.worker[i]); ok {
+					r = v.(tr.E)
+				} else {
+					r = qa.Rp("blocked", 0) // a call that must not block: nothing in the spec has this reply
+					wd.dead = true
+				}
+			}
+			rs = append(rs, r)
+		}
+	default:
 		r, ok := wd.x.Take(nCons + 1)
 		switch {
 		case !ok:
-			// a call that must not block is parked: nothing in the spec has this reply
 			rep = qa.Rp("blocked", 0)
 			for range a.Acts {
 				rs = append(rs, rep)
@@ -181,18 +321,47 @@ func (wd *lworld) step(a act) {
 		}
 	}
 	ev := tr.E{"ev": "step", "a": a.rec(), "r": rep, "st": st}
-	switch {
-	case a.Op == "burst":
+	switch a.Op {
+	case "burst":
 		ev["rs"] = rs
 		for _, x := range a.Acts {
 			wd.model(x)
 		}
-	case a.Op == "pop" && !wd.m.PopReturns():
-		wd.mp++
+	case "race":
+		ev["rs"] = rs
+		// count model after a race: Len must be an upper bound and Closed a certainty, whatever the
+		// order was: adds first, then close; a try-close counts only when nothing was added
+		adds := 0
+		for _, x := range a.Acts {
+			if x.Op == "add" {
+				wd.model(x)
+				adds++
+			}
+		}
+		for _, x := range a.Acts {
+			if x.Op == "close" || (x.Op == "tryclose" && adds == 0) {
+				wd.model(x)
+			}
+		}
+		for _, x := range a.Acts {
+			if x.Op == "pop" {
+				wd.modelPop(x)
+			}
+		}
+	case "pop":
+		wd.modelPop(a.Act)
 	default:
 		wd.model(a.Act)
 	}
-	wd.w.Emit(ev)
+	wd.emit(ev)
+}
+
+func (wd *lworld) modelPop(x qa.Act) {
+	if wd.m.PopReturns() {
+		wd.model(x)
+	} else {
+		wd.mp++
+	}
 }
 
 // model advances the count model: parked consumers take what arrives, a close releases them.
@@ -242,34 +411,106 @@ func bursts(plan []act) []act {
 
 func mkAct(op string) act { return act{Act: qa.Act{Op: op}} }
 
-// drain: close (every parked consumer must come back), then take out the residue.
-func (wd *lworld) drain() {
-	if !wd.m.Closed {
-		wd.step(mkAct("close"))
+// next: the plan, then the drain - close (every parked consumer must come back), then take out the
+// residue with a free consumer.
+func (wd *lworld) next() (act, bool) {
+	if len(wd.plan) > 0 {
+		a := wd.plan[0]
+		wd.plan = wd.plan[1:]
+		return a, true
 	}
-	free := 0
-	for c := 1; c <= nCons; c++ {
-		if !wd.busy[c] {
-			free = c
-			break
+	switch wd.dstate {
+	case 0:
+		wd.dstate = 1
+		if !wd.m.Closed {
+			return mkAct("close"), true
+		}
+		fallthrough
+	case 1:
+		wd.dstate = 2
+		wd.dleft = wd.m.Len() + 1
+		for c := 1; c <= nCons; c++ {
+			if !wd.busy[c] {
+				wd.dfree = c
+				break
+			}
+		}
+		fallthrough
+	case 2:
+		if wd.dfree != 0 && wd.dleft > 0 {
+			wd.dleft--
+			return act{Act: qa.Act{Op: "pop", Any: true}, C: wd.dfree}, true
 		}
 	}
-	if free != 0 {
-		for i := wd.m.Len() + 1; i >= 0 && !wd.dead; i-- {
-			wd.step(act{Act: qa.Act{Op: "pop", Any: true}, C: free})
-		}
-	}
-	wd.x.Stop() // consumers that are still parked stay behind (that is the finding)
+	return act{}, false
 }
 
-func runList(w *tr.W, src, kind string, ccap, rcap, rep int, plan []act) {
-	wd := &lworld{w: w, q: qa.New(kind, ccap, rcap, rep), kind: kind, x: qx.New(nCons + 1),
-		m: qa.Model{Kind: kind, Ccap: ccap, Rcap: rcap}}
-	w.Emit(tr.E{"ev": "reset", "kind": kind, "ccap": ccap, "rcap": rcap, "src": src, "rep": rep})
-	for _, a := range plan {
-		wd.step(a)
+// advance issues the next applicable step; false: the world is finished.
+func (wd *lworld) advance() bool {
+	for !wd.dead {
+		a, ok := wd.next()
+		if !ok {
+			return false
+		}
+		if wd.issue(a) {
+			return true
+		}
 	}
-	wd.drain()
+	return false
+}
+
+func newWorld(src, kind string, ccap, rcap, rep int, plan []act, emit func(tr.E)) *lworld {
+	wd := &lworld{emit: emit, q: qa.New(kind, ccap, rcap, rep), kind: kind, x: getExec(nCons + nCall),
+		m: qa.Model{Kind: kind, Ccap: ccap, Rcap: rcap}, plan: plan}
+	emit(tr.E{"ev": "reset", "kind": kind, "ccap": ccap, "rcap": rcap, "src": src, "rep": rep})
+	return wd
+}
+
+func settle() {
+	if err := settler.Settle(); err != nil {
+		tr.Fatal("%v", err)
+	}
+}
+
+var settler = qx.New(0)
+
+type spec struct {
+	src, kind       string
+	ccap, rcap, rep int
+	plan            []act
+}
+
+// runBatch runs independent worlds in lock-step: every world issues its next step, ONE global
+// quiescence, every world logs its picture.  Each world's events stay contiguous in the file.
+func runBatch(w *tr.W, specs []spec) {
+	worlds := make([]*lworld, len(specs))
+	bufs := make([][]tr.E, len(specs))
+	for i, sp := range specs {
+		i := i
+		worlds[i] = newWorld(sp.src, sp.kind, sp.ccap, sp.rcap, sp.rep, sp.plan,
+			func(e tr.E) { bufs[i] = append(bufs[i], e) })
+	}
+	for {
+		var active []*lworld
+		for _, wd := range worlds {
+			if wd.advance() {
+				active = append(active, wd)
+			}
+		}
+		if len(active) == 0 {
+			break
+		}
+		settle()
+		for _, wd := range active {
+			wd.collect()
+		}
+	}
+	for i, wd := range worlds {
+		putExec(nCons+nCall, wd.x)
+		for _, e := range bufs[i] {
+			w.Emit(e)
+		}
+	}
 }
 
 func randList(rng *rand.Rand, kind string, n int) []act {
@@ -569,7 +810,105 @@ func (wd *pworld) call(p int, op string) {
 	})
 }
 
+// race: pushx / popx / len / recv by distinct procs, released together, gates open.
+func (wd *pworld) race(a act) {
+	var recs []tr.E
+	var procs []int
+	var fns []func() tr.E
+	used := map[int]bool{}
+	q := wd.q
+	for i, x := range a.Acts {
+		p := a.RC[i]
+		if p < 1 || p > nCons || used[p] || wd.rel[p] != nil {
+			continue
+		}
+		var f func() tr.E
+		switch x.Op {
+		case "pushx":
+			wd.id++
+			e := &pent{wd.id}
+			f = func() tr.E {
+				if err := q.Push(e); err == priq.ErrQueueIsFull {
+					return qa.Rp("full", 0)
+				} else if err != nil {
+					return qa.Rp("err", 0)
+				}
+				return qa.Rp("ok", 0)
+			}
+		case "popx":
+			f = func() tr.E {
+				if q.Pop() == nil {
+					return qa.Rp("empty", 0)
+				}
+				return qa.Rp("item", 0)
+			}
+		case "len":
+			f = func() tr.E { return qa.Rp("len", q.Len()) }
+		case "recv":
+			f = func() tr.E {
+				select {
+				case <-q.WaitCh():
+					return qa.Rp("true", 0)
+				default:
+					return qa.Rp("false", 0)
+				}
+			}
+		default:
+			continue
+		}
+		used[p] = true
+		recs, procs, fns = append(recs, tr.E{"op": x.Op, "p": p}), append(procs, p), append(fns, f)
+	}
+	if len(fns) < 2 {
+		return
+	}
+	b := &barrier{}
+	for i := range fns {
+		f, d := fns[i], 0
+		if i < len(a.Delay) {
+			d = a.Delay[i]
+		}
+		wd.x.Issue(procs[i], func() (r interface{}) {
+			defer func() {
+				if pv := recover(); pv != nil {
+					r = qa.Rp("panic", 0)
+				}
+			}()
+			b.wait(d)
+			return f()
+		})
+	}
+	b.release(len(fns))
+	if err := wd.x.Settle(); err != nil {
+		tr.Fatal("%v", err)
+	}
+	rs := make([]tr.E, len(fns))
+	for i, p := range procs {
+		if r, ok := wd.x.Take(p); ok {
+			rs[i] = r.(tr.E)
+		} else {
+			rs[i] = qa.Rp("blocked:"+wd.x.WaitState(p), 0)
+			wd.dead = true
+		}
+	}
+	st := make([]string, nCons)
+	for i := 1; i <= nCons; i++ {
+		st[i-1] = "idle"
+		if wd.rel[i] != nil {
+			st[i-1] = "gate"
+		}
+	}
+	wd.w.Emit(tr.E{"ev": "step", "a": tr.E{"op": "race", "acts": recs}, "r": qa.Rp("race", 0), "rs": rs,
+		"sig": len(wd.q.WaitCh()), "len": wd.q.Len(), "st": st})
+}
+
 func (wd *pworld) step(a act) {
+	if a.Op == "race" {
+		if !wd.dead {
+			wd.race(a)
+		}
+		return
+	}
 	p := a.P
 	if wd.dead || (a.Op != "gateall" && (p < 1 || p > nCons)) {
 		return
@@ -710,7 +1049,7 @@ func (wd *pworld) step(a act) {
 }
 
 func runPri(w *tr.W, src string, rcap int, plan []act) {
-	wd := &pworld{w: w, q: priq.NewPriQueue(rcap), x: qx.New(nCons)}
+	wd := &pworld{w: w, q: priq.NewPriQueue(rcap), x: getExec(nCons)}
 	w.Emit(tr.E{"ev": "reset", "kind": "priq", "ccap": 0, "rcap": rcap, "src": src})
 	for _, a := range plan {
 		wd.step(a)
@@ -723,7 +1062,100 @@ func runPri(w *tr.W, src string, rcap int, plan []act) {
 		wd.step(act{Act: qa.Act{Op: "recv"}, P: 1})
 		wd.step(act{Act: qa.Act{Op: "popx"}, P: 1})
 	}
-	wd.x.Stop()
+	putExec(nCons, wd.x)
+}
+
+func skews(rng *rand.Rand, n int) []int {
+	// sweep the calls over each other: windows inside a call are a few instructions wide
+	d := make([]int, n)
+	for i := range d {
+		switch rng.Intn(4) {
+		case 0, 1:
+			d[i] = rng.Intn(64)
+		case 2:
+			d[i] = rng.Intn(400)
+		}
+	}
+	return d
+}
+
+// raceList: the race itself on a fresh, empty or nearly empty queue: k consumers entering Pop
+// together with a close, adds, or both.
+func raceList(rng *rand.Rand, kind string) (plan []act) {
+	id := 0
+	add := func() qa.Act {
+		id++
+		lane := "req"
+		if kind == "mq" && rng.Intn(3) == 0 {
+			lane = "ctrl"
+		}
+		return qa.Act{Op: "add", Lane: lane, Prior: kind != "syncq" && rng.Intn(5) == 0, V: id}
+	}
+	if rng.Intn(4) == 0 {
+		plan = append(plan, act{Act: add()})
+	}
+	r := act{Act: qa.Act{Op: "race"}}
+	var ext []qa.Act
+	switch rng.Intn(6) {
+	case 0, 1, 2:
+		ext = []qa.Act{{Op: "close"}}
+	case 3:
+		ext = []qa.Act{add()}
+	case 4:
+		ext = []qa.Act{add(), add()}
+	default:
+		ext = []qa.Act{add(), {Op: "close"}}
+		if kind == "mq" && rng.Intn(2) == 0 {
+			ext[1].Op = "tryclose"
+		}
+	}
+	// several consumers contend for the queue's mutex on their way in: that spreads the moments at
+	// which each of them is about to sleep
+	k := 1 + rng.Intn(5-len(ext))
+	if len(ext) == 1 && rng.Intn(2) == 0 {
+		k = 3 + rng.Intn(2)
+	}
+	for c := 1; c <= k; c++ {
+		r.Acts = append(r.Acts, qa.Act{Op: "pop", Any: kind == "syncq" || rng.Intn(2) == 0})
+		r.RC = append(r.RC, c)
+	}
+	for _, x := range ext {
+		r.Acts = append(r.Acts, x)
+		r.RC = append(r.RC, 0)
+	}
+	rng.Shuffle(len(r.Acts), func(i, j int) {
+		r.Acts[i], r.Acts[j] = r.Acts[j], r.Acts[i]
+		r.RC[i], r.RC[j] = r.RC[j], r.RC[i]
+	})
+	r.Delay = skews(rng, len(r.Acts))
+	return append(plan, r)
+}
+
+// racePri: a (nearly) full queue, a consumer that holds the token and Pops, together with Len()
+// pollers, pushers (rejected when full) and other poppers.
+func racePri(rng *rand.Rand, rcap int) (plan []act) {
+	fill := rcap - rng.Intn(2)
+	if fill < 1 {
+		fill = 1
+	}
+	plan = append(plan, act{Act: qa.Act{Op: "pushn"}, P: 4, K: fill})
+	plan = append(plan, act{Act: qa.Act{Op: "recv"}, P: 1})
+	for round := 0; round < 2; round++ {
+		r := act{Act: qa.Act{Op: "race"}}
+		r.Acts, r.RC = []qa.Act{{Op: "popx"}}, []int{1}
+		for p := 2; p <= nCons; p++ {
+			if rng.Intn(4) == 0 {
+				continue
+			}
+			op := []string{"len", "len", "pushx", "pushx", "popx", "recv"}[rng.Intn(6)]
+			r.Acts, r.RC = append(r.Acts, qa.Act{Op: op}), append(r.RC, p)
+		}
+		r.Delay = skews(rng, len(r.Acts))
+		plan = append(plan, r)
+		plan = append(plan, act{Act: qa.Act{Op: "pushn"}, P: 4, K: 1 + rng.Intn(2)})
+		plan = append(plan, act{Act: qa.Act{Op: "recv"}, P: 1})
+	}
+	return plan
 }
 
 func randPri(rng *rand.Rand, n int) []act {
@@ -736,23 +1168,42 @@ func randPri(rng *rand.Rand, n int) []act {
 	return out
 }
 
-// stressPri: producers push, consumers follow the documented protocol (receive a token, then Pop
-// once).  At global quiescence all consumers sleep on the channel; the queue must be empty (or the
-// channel must hold a token, which cannot be while they sleep).
+// stressPri: producers push (a small capacity makes many pushes fail with "full": they are not
+// retried, so the run always ends), Len() pollers run along, consumers follow the documented
+// protocol (receive a token, then Pop once).  At global quiescence nobody is inside a call, every
+// token was followed by a Pop and all consumers sleep on the channel: the queue must be empty, or
+// the channel must hold a token (which cannot be while they sleep); accepted = got + left.
 func stressPri(w *tr.W, rng *rand.Rand, nprod, ncons, per int) {
-	q := priq.NewPriQueue(nprod*per + 1)
+	capa := nprod*per + 1
+	if rng.Intn(3) != 0 {
+		capa = 1 + rng.Intn(4)
+	}
+	npoll := rng.Intn(3)
+	q := priq.NewPriQueue(capa)
 	var got, accepted int32
 	var pwg sync.WaitGroup
+	b := &barrier{}
 	for p := 0; p < nprod; p++ {
 		pwg.Add(1)
 		go func(p int) {
 			defer pwg.Done()
+			b.wait(0)
 			for i := 0; i < per; i++ {
 				if q.Push(&pent{p*per + i}) == nil {
 					atomic.AddInt32(&accepted, 1)
 				}
 			}
 		}(p)
+	}
+	for p := 0; p < npoll; p++ {
+		pwg.Add(1)
+		go func() {
+			defer pwg.Done()
+			b.wait(0)
+			for i := 0; i < 3*per; i++ {
+				_ = q.Len()
+			}
+		}()
 	}
 	for c := 0; c < ncons; c++ {
 		go func() {
@@ -764,13 +1215,14 @@ func stressPri(w *tr.W, rng *rand.Rand, nprod, ncons, per int) {
 		}()
 	}
 	x := qx.New(0)
+	b.release(nprod + npoll)
 	pwg.Wait()
 	if err := x.Settle(); err != nil {
 		tr.Fatal("pstress: %v", err)
 	}
-	w.Emit(tr.E{"ev": "reset", "kind": "priq", "ccap": 0, "rcap": nprod*per + 1, "src": "stress"})
+	w.Emit(tr.E{"ev": "reset", "kind": "priq", "ccap": 0, "rcap": capa, "src": "stress"})
 	w.Emit(tr.E{"ev": "pstress", "left": q.Len(), "sig": len(q.WaitCh()), "got": int(atomic.LoadInt32(&got)),
-		"accepted": int(atomic.LoadInt32(&accepted)), "nprod": nprod, "ncons": ncons})
+		"accepted": int(atomic.LoadInt32(&accepted)), "nprod": nprod, "ncons": ncons, "npoll": npoll})
 }
 
 func main() {
@@ -784,11 +1236,29 @@ func main() {
 	nrand := flag.Int("rand", 60, "random list-queue schedules")
 	nprand := flag.Int("prand", 40, "random priq schedules")
 	nstress := flag.Int("nstress", 0, "stress runs per queue type")
+	nrace := flag.Int("race", 0, "race rounds per list-queue type")
+	nprace := flag.Int("prace", 0, "priq race rounds")
+	nbatch := flag.Int("batch", 20, "worlds per lock-step batch")
+	npstress := flag.Int("npstress", 0, "additional priq stress runs")
 	flag.Parse()
 	rng := rand.New(rand.NewSource(*seed))
 	priq.VerifGate = gate
 
 	w := tr.Create(*out)
+	// independent worlds run in lock-step batches (one global quiescence per step of the batch)
+	var batch []spec
+	flush := func() {
+		if len(batch) > 0 {
+			runBatch(w, batch)
+			batch = nil
+		}
+	}
+	queue := func(sp spec) {
+		batch = append(batch, sp)
+		if len(batch) >= *nbatch {
+			flush()
+		}
+	}
 	if *plans != "" {
 		files, _ := filepath.Glob(filepath.Join(*plans, "*.ndjson"))
 		sort.Strings(files)
@@ -801,7 +1271,7 @@ func main() {
 			if i%2 == 1 {
 				steps = bursts(steps)
 			}
-			runList(w, "plan:"+filepath.Base(f), p[0].Kind, p[0].Ccap, p[0].Rcap, i%4, steps)
+			queue(spec{"plan:" + filepath.Base(f), p[0].Kind, p[0].Ccap, p[0].Rcap, i % 4, steps})
 		}
 	}
 	kinds := []string{"syncq", "q", "async", "mux", "mq"}
@@ -815,7 +1285,8 @@ func main() {
 		if kind == "syncq" {
 			rcap = 0
 		}
-		runList(w, "rand", kind, ccap, rcap, rng.Intn(4), randList(rng, kind, 10+rng.Intn(16)))
+		rep := rng.Intn(4)
+		queue(spec{"rand", kind, ccap, rcap, rep, randList(rng, kind, 10+rng.Intn(16))})
 	}
 	// the wake-up scenario itself, for every kind: c consumers parked, then k adds in one burst
 	for i := 0; i < *nrand/3+10; i++ {
@@ -838,8 +1309,19 @@ func main() {
 		if kind != "syncq" && rng.Intn(3) == 0 {
 			rcap = 1 + rng.Intn(3)
 		}
-		runList(w, "scenario", kind, 0, rcap, rng.Intn(4), plan)
+		queue(spec{"scenario", kind, 0, rcap, rng.Intn(4), plan})
 	}
+	for i := 0; i < *nrace; i++ {
+		for _, kind := range kinds {
+			rcap := []int{0, 0, 1, 2}[rng.Intn(4)]
+			if kind == "syncq" {
+				rcap = 0
+			}
+			rep := rng.Intn(4)
+			queue(spec{"race", kind, 0, rcap, rep, raceList(rng, kind)})
+		}
+	}
+	flush()
 	w.Close()
 
 	pw := tr.Create(*pout)
@@ -857,6 +1339,10 @@ func main() {
 	for i := 0; i < *nprand; i++ {
 		runPri(pw, "rand", []int{1, 2, 3, 4, 8}[rng.Intn(5)], randPri(rng, 15+rng.Intn(25)))
 	}
+	for i := 0; i < *nprace; i++ {
+		rcap := 1 + rng.Intn(3)
+		runPri(pw, "race", rcap, racePri(rng, rcap))
+	}
 	pw.Close()
 
 	sw := tr.Create(*sout)
@@ -869,6 +1355,9 @@ func main() {
 			}
 			stressList(sw, rng, kind, rcap, 1+rng.Intn(3), 2+rng.Intn(4), 20+rng.Intn(60))
 		}
+		stressPri(psw, rng, 1+rng.Intn(3), 1+rng.Intn(4), 20+rng.Intn(80))
+	}
+	for i := 0; i < *npstress; i++ {
 		stressPri(psw, rng, 1+rng.Intn(3), 1+rng.Intn(4), 20+rng.Intn(80))
 	}
 	sw.Close()
